@@ -354,6 +354,13 @@ func (r *Runner) deliver(tx M) (TxResult, []any, error) {
 	if early != nil {
 		return *early, nil, nil
 	}
+	if r.c.Opts.SimFirst {
+		// the usual client flow: estimate gas by simulating the very transaction that is then broadcast (runs ante + handlers on a branch of the
+		// check state; whatever it leaves behind in process memory is there when the transaction is delivered, and later)
+		if sr := r.c.SimulateRaw(bz); sr.Panic {
+			r.panics++
+		}
+	}
 	res := r.c.DeliverRaw(bz)
 	if res.Panic {
 		r.panics++
